@@ -1614,6 +1614,17 @@ impl AnnotationStore {
                 (_, Selector::ResourceSelector(..)) => Ordering::Greater,
                 (Selector::DataSetSelector(..), _) => Ordering::Less,
                 (_, Selector::DataSetSelector(..)) => Ordering::Greater,
+                (Selector::DataKeySelector(set, key), Selector::DataKeySelector(set2, key2)) => {
+                    (set, key).cmp(&(set2, key2))
+                }
+                (
+                    Selector::AnnotationDataSelector(set, data),
+                    Selector::AnnotationDataSelector(set2, data2),
+                ) => (set, data).cmp(&(set2, data2)),
+                (Selector::AnnotationSelector(..), _) => Ordering::Less,
+                (_, Selector::AnnotationSelector(..)) => Ordering::Greater,
+                (Selector::DataKeySelector(..), _) => Ordering::Less,
+                (_, Selector::DataKeySelector(..)) => Ordering::Greater,
                 // catch-all for anything that shouldn't occur at this point anyway:
                 (a, b) => panic!("Unable to compare order for selector {:?} vs {:?}", a, b),
             });
